@@ -26,7 +26,7 @@ func genC06(t *rapid.T) c06Case {
 	nv := rapid.IntRange(1, 3).Draw(t, "nv")
 	for i := 0; i < nv; i++ {
 		g.budget = 7
-		body := g.formula(0)
+		body := g.bounded(40)
 		if rapid.IntRange(0, 2).Draw(t, "wrapNot") == 0 {
 			body = m.Not(body)
 		}
